@@ -6,7 +6,9 @@ pub mod rng;
 pub mod c02;
 pub mod c03;
 pub mod c04;
+pub mod c06;
 pub mod c07;
 pub mod c14;
 pub mod c15;
 pub mod c18;
+pub mod c19;
